@@ -382,6 +382,7 @@ pub fn check_all(log: &[Ev], meta: &Meta) -> Findings {
     let ix = Ix::build(log, meta);
     let mut f = Findings::default();
     harness_notes(&ix, &mut f);
+    lazy_futures(&ix, &mut f);
     c01(&ix, &mut f);
     c02(&ix, &mut f);
     c03(&ix, &mut f);
@@ -398,6 +399,33 @@ pub fn check_all(log: &[Ev], meta: &Meta) -> Findings {
     c19_tell_result(&ix, &mut f);
     c20(&ix, &mut f);
     f
+}
+
+fn lazy_futures(ix: &Ix, f: &mut Findings) {
+    // an operation takes effect when it is awaited, not when its future is created (and never if it is dropped unpolled)
+    for (i, e) in ix.log.iter().enumerate() {
+        if let K::Lazy { uid, what } = &e.k {
+            match *what {
+                "dropped-unpolled" => {
+                    f.o("C01.unpolled");
+                    if let Some(h) = ix.henter.get(uid) {
+                        f.v("C01.unpolled", None, format!("message uid {uid}: the call's future was dropped without ever being polled (log position {i}) yet the message was handled at {:?}", h));
+                    }
+                }
+                "created" => {
+                    if let Some(o) = ix.ops.values().find(|o| o.uid == *uid && o.kind.is_msg()) {
+                        f.o("C01.unpolled");
+                        if let Some(h) = ix.henter.get(uid) {
+                            if h[0] < o.s {
+                                f.v("C01.unpolled", Some(o.actor), format!("message uid {uid} was handled at log position {} before its call was first polled at {}", h[0], o.s));
+                            }
+                        }
+                    }
+                }
+                _ => {}
+            }
+        }
+    }
 }
 
 fn harness_notes(ix: &Ix, f: &mut Findings) {
